@@ -17,6 +17,7 @@ const fixtureSrc = `package lvfixture
 
 import (
 	"bufio"
+	"encoding/json"
 	"fmt"
 	"io"
 	"math"
@@ -596,6 +597,61 @@ func (e fixEvaluator) SumLow(op0, op1, opOut *rlwe.Ciphertext) {
 		e.r.Add(op0.Value[i], op1.Value[i], opOut.Value[i])
 	}
 	*opOut.MetaData = *op0.MetaData
+}
+
+// JSONAUX control: the auxiliary struct has no counterpart for Root, and Flag is decoded but not restored
+type Lit struct {
+	LogN int
+	Root int
+	Flag bool
+	Xs   ring.DistributionParameters
+}
+
+func (p *Lit) UnmarshalJSON(b []byte) (err error) {
+	var pl struct {
+		LogN int
+		Flag bool
+		Xs   map[string]interface{}
+	}
+	if err = json.Unmarshal(b, &pl); err != nil {
+		return
+	}
+	p.LogN = pl.LogN
+	if pl.Xs != nil {
+		p.Xs, err = ring.ParametersFromMap(pl.Xs)
+	}
+	return
+}
+
+// JSONIFACE control: an interface-typed field left to the default decoder
+type Lit2 struct {
+	LogN int
+	Xe   ring.DistributionParameters
+}
+
+func (p *Lit2) UnmarshalBinary(data []byte) error { return json.Unmarshal(data, p) }
+
+// SCALEMUT control: the decoded value is stored into the mantissa the receiver shares with its copies
+type scaleBox struct{ s rlwe.Scale }
+
+func (b *scaleBox) Load(v *big.Float) {
+	b.s.Value.Set(v)
+}
+
+// DECIDX control: the first element of the decoded vector, whatever its length
+type vecBox struct {
+	vals []uint64
+	head uint64
+}
+
+func (b *vecBox) ReadFrom(r io.Reader) (n int64, err error) {
+	var k [1]byte
+	if _, err = io.ReadFull(r, k[:]); err != nil {
+		return
+	}
+	b.vals = make([]uint64, int(k[0]))
+	b.head = b.vals[0]
+	return 1, nil
 }
 
 // INDEG control: the first two components of the input, whatever its degree
